@@ -180,6 +180,10 @@ pub fn handle(op: &str, a: &[&str]) -> Option<String> {
         ("c12-lineaddr", [ins]) => c12_lineaddr(ins),
         ("c12-cfiarith", [caf, daf, delta, f]) => Some(c12_cfiarith(caf.parse().ok()?, daf.parse().ok()?, delta.parse().ok()?, f.parse().ok()?)),
         ("c12-frame", [e, kind, asz, h]) => Some(c12_frame(endian(e)?, *kind == "eh", asz.parse().ok()?, &unhex(h)?)),
+        // expression component (c12/expr.rs); the map argument is for the Model only
+        ("c12-expr", [e, asz, fmt, ver, x, _map, addr]) => Some(c12_expr(endian(e)?, ex_encoding(asz, fmt, ver)?, &unhex(x)?, &unhex(addr)?)),
+        // debugging aid: the map argument of c12-expr for an encoding
+        ("c12-exprmap", [e, asz, fmt, ver]) => Some(format!("ok {}", ex_map(ex_encoding(asz, fmt, ver)?, endian(e)?)?)),
         _ => None,
     }
 }
@@ -965,4 +969,8 @@ pub fn gen(ctx: &Ctx, emit: &mut dyn FnMut(String)) {
         emit(format!("c12-frame le eh 8 {}", hex(&s.eh_frame)));
     }
     let _ = Tier::Quick;
+    // expression component: Model/ConvOp.lean vs Expression::from (c12/expr.rs)
+    ex_gen(ctx, emit);
 }
+
+include!("c12/expr.rs");
